@@ -26,6 +26,36 @@ CHECKS = {
             "Generated-input search over base and extension fields of the three primes: add/sub/mul/scalar/eval/degree/remove_leading_zeros, long division (q*b+r=a, deg r<deg b), synthetic division by x^a-b (incl. b=1, a>=2, repeated) and by root lists, Lagrange interpolation (single and batched N=2,4,8,16), poly_from_roots, batch inversion with zeros at generated positions, power series, add_in_place, mul_acc at lengths on both sides of the 1024-element threshold. Documented panics are required to happen; every other panic is a violation.",
             "Trusts the schoolbook reference (vf-ref). Power series of length 0 and empty dividend slices are not generated (undefined by the docs, no caller uses them).",
             "DESIGN.md 3/C20"),
+    "C01": ("exploration", "vf-stark",
+            "property-based testing (proptest): generated computation descriptions (GenAir family) with by-construction valid traces; oracle = prove, verify, serialize, parse, verify",
+            "Generated-input search over a run-time described family of computations: 1..255 columns, rules of degree 1..blowup+1 with and without periodic columns, geometric (constant / x^k / periodic) columns, 1..n/2+1 exemptions, single/periodic/sequence assertions drawn from the trace (zero and non-zero first step, up to n/2 values), optional randomized auxiliary segment (0..255 random elements, Lagrange kernel column), all-degenerate traces, every option set with a well-formed FRI schedule, 3 fields x 3 extension degrees x 6 hashers (12 admissible field/hasher pairs). A valid trace (by construction and by the harness' reference validity predicate, cross-checked with Trace::validate) must prove, verify, survive Proof::to_bytes/from_bytes unchanged and verify again.",
+            "Sizes are bounded for cost (n <= 2^8 quick / 2^12 thorough, grinding <= 8 / 16, LDE cells <= 2^19 / 2^22 per case). Coin exhaustion (1000 rejected draws, cubic f62) is outside the claim and counted. Debug-assertion-only checks of the prover are not exercised (profile without debug assertions).",
+            "DESIGN.md 3/C01"),
+    "C02": ("fault_enumeration", "vf-stark",
+            "property-based testing / fault injection (proptest): corrupted cells, perturbed public inputs and proof contexts; oracle = reference validity predicate",
+            "Fault enumeration over the C01 family: one cell of a valid trace (main or auxiliary segment) is corrupted at steps drawn from the boundary classes the property names (0, 1, last enforced step, n-k, n-k+1, n-1, every asserted step) and at random positions, exhaustively over every cell of a few small traces; the harness' reference validity predicate decides whether the result is still valid (then it must still prove and verify) or invalid (then no accepted proof may exist; the prover is built without debug assertions so it does not self-check). Accepted proofs are also verified against every kind of perturbed public input and against changed trace shapes / parameters in the proof context and must be rejected.",
+            "Acceptance by luck has probability < 2^-40 per case (random OOD point hitting a root). Panics of prover or verifier count as 'not accepted' here and are C06's subject. Perturbations that leave the statement unchanged are excluded and counted.",
+            "DESIGN.md 3/C02"),
+    "C04": ("exploration", "vf-stark",
+            "property-based testing (proptest) with a recording public coin; oracle = transcript derived from the proof object and replayed on a fresh coin",
+            "Generated-input search: prover and verifier are run with a RecordingCoin (substituted through their public type parameters). The harness derives the protocol's transcript from the proof object alone (context and public inputs as seed; roots parsed from the commitments; OOD hashes recomputed from the proof's bytes; draw counts from the AIR; nonce and query parameters), replays it on a fresh DefaultRandomCoin and requires both recorded transcripts to equal it operation by operation (the verifier's unused extra folding challenge is the only tolerated difference), so a message that is not absorbed, absorbed late, or absorbed with a recomputed instead of the transmitted value is detected even if prover and verifier agree with each other. Metamorphic part: disturbing any absorbed message changes every later challenge.",
+            "Assumes hash functions behave as random oracles for 'changes later challenges'. Sizes as in C01 (smaller). The order of absorption is taken from the protocol description in the prover/verifier documentation.",
+            "DESIGN.md 3/C04"),
+    "C17": ("exploration", "vf-stark",
+            "property-based testing (proptest): differential against an executable definition of the composition polynomial at generated points",
+            "Generated-input search: for GenAir instances (periodic columns of several cycle lengths, sequence assertions on both sides of the representation switch, non-zero first steps, exemptions > 1, aux segment, extensions, ce-blowup < lde-blowup) the value sum x^(i n) H_i(x) of the polynomial the prover would commit to (DefaultTraceLde -> DefaultConstraintEvaluator -> CompositionPoly, public API) is compared at 4 generated extension-field points with the definition computed over integer residues (trace polynomials by naive inverse DFT, rules on (T(x), T(gx)), periodic polynomials by Lagrange interpolation at x^(n/cycle), quotients by model zero sets, assertion polynomials by Lagrange interpolation); the verifier-side evaluation assembled from the air crate's public building blocks on the reference frame must give the same value.",
+            "Lagrange-kernel constraints are not modelled here (C01/C04 cover them end to end). Agreement at 4 random points of a field of >= 2^62 elements is taken as polynomial identity (error < 2^-40). Composition coefficients are chosen by the harness (boundary coefficients all equal, or distinct with the assignment read through public accessors).",
+            "DESIGN.md 3/C17"),
+    "C16": ("exploration", "vf-air",
+            "exhaustive enumeration (run.enumerate) + property-based testing (proptest) against an independent step-set model",
+            "Exhaustive enumeration against a step-set model: every (n in {8..256}, k = 1..n/2+1) transition divisor and every valid assertion (kind x column in {0,1} x first step x stride x #values) on all three base fields is evaluated on every trace-domain point (plus n+2 off-domain points for the transition divisor); overlaps_with is compared with step-set intersection for all ordered pairs at every n; BoundaryConstraints::new is driven with all ordered pairs for n <= 128 (quick) / n <= 256 (thorough) plus generated pairs; hand-enumerated ill-formed assertions must be refused. exhaustive:true is reported per sub-space actually completed; pairs/sampled is a sample.",
+            "Domain points come from the harness' integer field using the integer value of the published TWO_ADIC_ROOT_OF_UNITY (order established by C07). Non-vanishing of the transition divisor on exempt points is concluded from identity with the model product at n+2 points with non-zero denominator. Width fixed at 2 columns; base fields only.",
+            "DESIGN.md 3/C16"),
+    "C18": ("exploration", "vf-air",
+            "exhaustive enumeration of the parameter lattice + property-based testing (proptest) of monotonicity and of the verifier's acceptance policy on generated honest and forged proofs",
+            "Conjectured estimate compared with the formula transcribed from the documentation on the complete lattice queries 1..255 x blowup 2..128 x grinding 0..32 x extension 1..3 x trace 2^3..2^(31-log2 blowup) x {62,64,128}-bit fields x collision resistance 96..128 (FRI options rotated in quick, full product in thorough). Both estimates checked for monotonicity along the whole queries / grinding / extension / collision-resistance axes from generated base points (proven estimate: sampled). Acceptance policy checked on real proofs of a small AIR over the three fields: Insufficient* iff level < minimum, UnacceptableProofOptions iff not in the set, forged field moduli never accepted.",
+            "No independent oracle for the proven estimate (monotonicity, cap, no panic, the repository's 5 pinned values only). Collision resistances other than 96/124/128 via a user-defined Hasher. Real proofs limited to traces <= 2^6 and grinding <= 10. Lengths Context::new refuses are outside the claim. Panics on forged contexts are counted as 'not accepted' (C06's subject).",
+            "DESIGN.md 3/C18"),
 }
 
 NOT_YET = {
@@ -68,6 +98,8 @@ def main():
         "engines": [
             {"name": "vf-core", "path": "harness/vf-core", "serves_properties": [c["property_id"] for c in checks],
              "kind_free_text": "seeded proptest runner (16 deterministic shards), case classification/distinct counting, shrinking with stable failure keys, replay files, known-findings matcher, watchdog with isolated re-run, evidence writer"},
+            {"name": "vf-stark/GenAir", "path": "harness/vf-stark", "serves_properties": ["C01", "C02", "C03", "C04", "C06", "C17"],
+             "kind_free_text": "run-time described family of computations (Air/Prover/Trace implementations driven by a Desc), by-construction trace builder, reference validity predicate, recording coin, proof dissector/mutator"},
             {"name": "vf-ref", "path": "harness/vf-ref", "serves_properties": [c["property_id"] for c in checks],
              "kind_free_text": "reference models independent of /repo: integer prime fields, extension fields modulo the documented irreducibles, schoolbook polynomials"},
         ],
